@@ -446,7 +446,7 @@ class World:
             tb = traceback.extract_tb(e.__traceback__)
             r['out'] = 'exc'
             r['exc'] = type(e).__name__
-            r['msg'] = str(e)[:160]
+            r['msg'] = str(e).replace(self.scratch, '<scratch>')[:160]
             inner = tb[-1].filename if tb else ''
             # an exception whose innermost frame is harness code (and is not a simulated fault) is a harness problem
             if inner.startswith(HARNESS) and not isinstance(e, (OSError, KeyboardInterrupt, _Propagated)):
